@@ -298,7 +298,58 @@ theorem eq_complete_cex_reachable :
   rw [eq_complete_cex.1]
   exact beq_self_eq_true _
 
+/-- **T-merge_num** (the clause "whatever … mutations happened before", for `merge` between sketches
+    of DIFFERENT size bounds — `num` is not part of `check_compatible`): after any history, whatever
+    the two `num`s are, whether the receiver is empty or not and whether the source's digest is
+    cached or not, an accepted `merge` leaves the receiver with the merged hashes truncated to the
+    receiver's OWN `num`, and its next `md5sum` is the digest of exactly those hashes (never the
+    source's cached digest). -/
+theorem merge_num_vec (p : VPair) (cs : List Cmd) (h0 : VOk p.main ∧ VOk p.other) :
+    let q := p.run cs
+    compatErr q.main.ksize q.main.maxHash q.other.ksize q.other.maxHash = none →
+    let r := q.step (.on false .merge)
+    let m := mergeMins q.main.mins q.other.mins
+    r.1.main.mins = (if m.length > q.main.num && q.main.num != 0 then m.take q.main.num else m)
+    ∧ r.1.main.md5sum.1 = Md5.digest q.main.ksize r.1.main.mins := by
+  intro q hc r m
+  have h := VPair.step_ok (.on false .merge) (cache_inv_vec p cs h0)
+  have hr : r.1.main = q.main.merge q.other := by
+    simp only [r, VPair.step, vecOp, Vec.mergeChecked, hc]
+  have hk : (q.main.merge q.other).ksize = q.main.ksize := by
+    unfold Vec.merge Vec.reset; simp only []; split <;> rfl
+  have hm : (q.main.merge q.other).mins
+      = (if m.length > q.main.num && q.main.num != 0 then m.take q.main.num else m) := by
+    unfold Vec.merge Vec.reset; simp only []
+    by_cases hc' : (decide (m.length > q.main.num) && q.main.num != 0) = true
+    · rw [if_pos hc', if_pos hc']
+    · rw [if_neg hc', if_neg hc']
+  refine ⟨by rw [hr, hm], ?_⟩
+  have := (Vec.md5sum_spec h.1).1
+  rw [this, hr]; unfold Vec.digest; rw [hk]
+
+/-- **T-merge_num**, tree type (`union.take(num)` of the receiver). -/
+theorem merge_num_tree (p : TPair) (cs : List Cmd) (h0 : TOk p.main ∧ TOk p.other) :
+    let q := p.run cs
+    compatErr q.main.ksize q.main.maxHash q.other.ksize q.other.maxHash = none →
+    let r := q.step (.on false .merge)
+    let u := unionSorted q.main.mins q.other.mins
+    r.1.main.mins = (if q.main.num == 0 then u else u.take q.main.num)
+    ∧ r.1.main.md5sum.1 = Md5.digest q.main.ksize r.1.main.mins := by
+  intro q hc r u
+  have h := TPair.step_ok (.on false .merge) (cache_inv_tree p cs h0)
+  have hr : r.1.main = q.main.merge q.other := by
+    simp only [r, TPair.step, treeOp, Tree.mergeChecked, hc]
+  have hk : (q.main.merge q.other).ksize = q.main.ksize := rfl
+  have hm : (q.main.merge q.other).mins = (if q.main.num == 0 then u else u.take q.main.num) := rfl
+  refine ⟨by rw [hr, hm], ?_⟩
+  have := (Tree.md5sum_spec h.1).1
+  rw [this, hr]; unfold Tree.digest; rw [hk]
+
 /-! non-vacuity of the hypotheses: the starting pair used by the driver satisfies them -/
+/-- T-merge_num: a receiver of num 3, a source of num 10, compatible -/
+example : (VOk (Vec.new 3 0 true) ∧ VOk (Vec.new 10 0 false))
+    ∧ compatErr (Vec.new 3 0 true).ksize (Vec.new 3 0 true).maxHash (Vec.new 10 0 false).ksize (Vec.new 10 0 false).maxHash = none :=
+  ⟨⟨VOk.new .., VOk.new ..⟩, by decide⟩
 example : VOk (Vec.new 3 0 true) ∧ VOk (Vec.new 3 0 false) := ⟨VOk.new .., VOk.new ..⟩
 example : TOk (Tree.new 0 5 true) ∧ TOk (Tree.new 0 5 false) := ⟨TOk.new .., TOk.new ..⟩
 example : Pair.Ok (.v ⟨Vec.new 3 0 true, Vec.new 3 0 false 31⟩) := ⟨VOk.new .., VOk.new ..⟩
